@@ -173,6 +173,10 @@ func runBatch(t *testing.T, rc *RunCtx, prop string) {
 		runBatchFree(t, rc, prop)
 		return
 	}
+	if rc.Param("mode", "") == "wire" {
+		runBatchWire(t, rc)
+		return
+	}
 	procs := gomaxprocsSet[ch.Pick(len(gomaxprocsSet), 0)]
 	prev := runtime.GOMAXPROCS(procs)
 	defer runtime.GOMAXPROCS(prev)
